@@ -1,7 +1,7 @@
 (* C16 -- converter output always belongs to the stream's current data.
    Model: theories/Tags.v (state machine of the manager's service loop); proofs: theories/TagsC16.v. *)
 From Coq Require Import List NArith Bool.
-From Pk Require Import Tags TagsC16 TagsC06 TagsC09 TagsC09T TagsC09A TagsC16C TagsC16S.
+From Pk Require Import Tags TagsC16 TagsC06 TagsC09 TagsC09T TagsC09A TagsC16C TagsC16S TagsC16P.
 Import ListNotations.
 Open Scope N_scope.
 
@@ -26,24 +26,48 @@ Theorem C16_current_when_no_job :
   jconv st = None -> forall c i v, cache st c i = Some v -> v = ver st i.
 Proof. intros k l cs K H st J. apply cinv_quiet; [apply cinv_run; [exact K|exact H|apply cinv_init]|exact J]. Qed.
 
-(* ---- completeness (theories/TagsC16C.v; uses the C09 invariant Tinv and termination).
+(* ---- completeness (theories/TagsC16C.v; uses the C09 invariant Tinv and termination).  Completeness speaks about
+   converters that answer: `nofail_history` / `jstep0` = no conversion fails.  (A conversion that fails -- Converter.Data
+   returns an error, the process is killed -- is retried once and then discarded: C16_failed_conversion_is_not_cached;
+   the cache-version theorems above and C09's termination hold with failures as well.)
    In every reachable state every existing or future stream id that a live tag with an attached converter matches is
    cached, queued for that converter, or in the set of a converter job whose body has not run yet. *)
 Theorem C16_matching_is_cached_queued_or_in_flight :
-  forall cs l, NoDup cs -> valid_history (init cs) l ->
+  forall cs l, NoDup cs -> valid_history (init cs) l -> nofail_history l ->
   let st := run repaired l (init cs) in
   forall n t c id, In (n, t) (tags st) -> t_live t = true -> memN c (t_conv t) = true -> mem id (t_m t) = true ->
   cache st c id <> None \/ mem id (toconv st c) = true \/ inflight st c id.
-Proof. intros cs l ND V st n t c id I L C M. exact (proj1 (qinv_reachable cs l ND V) n t c id I L C M). Qed.
+Proof. intros cs l ND V NF st n t c id I L C M. exact (proj1 (qinv_reachable cs l ND V NF) n t c id I L C M). Qed.
 
 (* "eventually has output": from every reachable state every schedule of the background jobs is finite (C09) and
    where it stops every stream matching a tag with an attached converter has cached output of its CURRENT version *)
 Theorem C16_complete_and_current_at_rest :
-  forall cs l st', NoDup cs -> valid_history (init cs) l ->
-  jsteps (run repaired l (init cs)) st' -> (forall st'', ~ jstep st' st'') ->
+  forall cs l st', NoDup cs -> valid_history (init cs) l -> nofail_history l ->
+  jsteps0 (run repaired l (init cs)) st' -> (forall st'', ~ jstep0 st' st'') ->
   forall n t c id, In (n, t) (tags st') -> t_live t = true -> memN c (t_conv t) = true -> memN c (convs st') = true ->
   mem id (t_m t) = true -> cache st' c id = Some (ver st' id).
 Proof. exact reachable_complete. Qed.
+
+(* a conversion that fails leaves no output: the converter job body stores nothing for a (converter, stream) pair on its
+   failure list *)
+Theorem C16_failed_conversion_is_not_cached :
+  forall bad st j c i, existsb (fun p => (fst p =? c) && (snd p =? i)) bad = true -> cache st c i = None ->
+  NoDup (map fst (cj_sets j)) -> cache (bconv_state bad st j) c i = None.
+Proof. intros bad st j c i B CC ND. apply failed_not_cached; auto. Qed.
+
+(* ---- the converter process pool (theories/TagsC16P.v; internal/index/converters reserveProcess / releaseProcess / Data).
+   Rule: a process whose answer could not be read completely (invalid direction, ...) is killed, only a process whose
+   answer was read completely goes back to the idle pool.  Then, whatever sequence of streams is converted and whatever
+   the converter script answers, every conversion returns the script's answer for THAT stream (or its error). *)
+Theorem C16_pool_answers_belong_to_their_requests :
+  forall l p, clean p -> requests true l p = map expected l.
+Proof. exact requests_kill_rule. Qed.
+
+(* Without the rule (the process goes back to the pool after the error; seeded change C16-r4c-n2): the next stream is
+   shown the leftover of the failed answer. *)
+Theorem C16_pool_release_after_error_refuted :
+  requests false [w_bad; w_good] [] = [None; Some [10]] /\ expected w_good = Some [11].
+Proof. exact release_after_error_refuted. Qed.
 
 (* Detaching: detachConverterFromTag removes the tag's own streams from the converter's queue; a stream stays queued
    only if another tag that keeps the converter matches it.  This is the whole statement, by design of the code; the
